@@ -39,7 +39,10 @@ WITNESS = 's1a[ s2q[w200] w20 j2 ] w50 s3q[ u1 ] w100 j3 j1'
 
 
 # ------------------------------------------------------------------------------------------------ programs
-# op = ('w', ms) | ('s', name, kind, body) | ('j', name) | ('u', name) | ('p', n, body)
+# op = ('w', ms) | ('s', name, kind, body) | ('j', name) | ('g', name) | ('u', name) | ('p', n, body)
+FUT_DEFERRED = 'fadD'      # deferredPolicy = std::launch::deferred
+FUT_NOTDEFERRED = 'nN'     # dispenso::kNotDeferred
+FUT = FUT_DEFERRED + FUT_NOTDEFERRED
 
 def text(ops):
     out = []
@@ -48,7 +51,7 @@ def text(ops):
             out.append('w%d' % o[1])
         elif o[0] == 's':
             out.append('s%d%s[%s]' % (o[1], o[2], text(o[3])))
-        elif o[0] in 'ju':
+        elif o[0] in 'jug':
             out.append('%s%d' % (o[0], o[1]))
         elif o[0] == 'p':
             out.append('p%d[%s]' % (o[1], text(o[2])))
@@ -61,8 +64,8 @@ def rename(ops, off):
     for o in ops:
         if o[0] == 's':
             res.append(('s', o[1] + off, o[2], o[3]))
-        elif o[0] == 'j':
-            res.append(('j', o[1] + off))
+        elif o[0] in 'jg':
+            res.append((o[0], o[1] + off))
         elif o[0] == 'p':
             res.append(('p', o[1], o[2]))
         else:
@@ -85,10 +88,11 @@ def coq_items(ops):
         if o[0] == 'w':
             out.append('OWork')
         elif o[0] == 's':
-            out.append('(OSpawn %d %s %s)' % (o[1], 'JFut' if o[2] in 'fa' else 'JSet', coq(o[3])))
+            k = '(JFut true)' if o[2] in FUT_DEFERRED else '(JFut false)' if o[2] in FUT_NOTDEFERRED else 'JSet'
+            out.append('(OSpawn %d %s %s)' % (o[1], k, coq(o[3])))
             if o[1] not in pend:
                 pend.append(o[1])
-        elif o[0] == 'j':
+        elif o[0] in 'jg':                    # Future::wait() and get(): the same untimed wait
             out.append('(OWait %d)' % o[1])
             if o[1] in pend:
                 pend.remove(o[1])
@@ -133,11 +137,11 @@ def gen_body(r, depth, names, heavy):
         elif x < 0.88:
             names[0] += 1
             j = names[0]
-            ops.append(('s', j, r.choice('fa'), gen_body(r, depth - 1, names, heavy)))
+            ops.append(('s', j, r.choice(FUT + 'nN'), gen_body(r, depth - 1, names, heavy)))
             if r.random() < 0.5:
                 ops.append(('w', 0))
             if r.random() < 0.7:
-                ops.append(('j', j))
+                ops.append((r.choice('jg'), j))
         else:
             ops.append(('p', r.randint(1, 4), gen_body(r, depth - 1, names, heavy)))
     return ops
@@ -164,7 +168,33 @@ def gen_cases(ctx):
     for p in (deep, wide, futs):
         for N in (0, 1, 2, 4):
             cases.append((p, N))
+    cases += probe_cases()
     return cases
+
+
+def probe_cases():
+    """every pool worker inside a task that created a future on the same pool and waits for it while it is still queued; the root
+    blocks in get() too (a task-set wait of the root would drain the queue).  The untimed wait must run the queued functor inline
+    whatever its deferred policy is."""
+    out = []
+
+    def fam(N, outer, inner, w):
+        ops = []
+        for i in range(N):
+            ops.append(('s', 10 + i, outer, [('w', 20), ('s', 1, inner, [('w', 1)]), (w, 1)]))
+        for i in range(N):
+            ops.append((w, 10 + i))
+        return ops
+    for N in (1, 2, 3, 4):
+        for outer, inner, w in (('N', 'N', 'g'), ('N', 'n', 'j'), ('a', 'N', 'g'), ('N', 'N', 'j')):
+            out.append((fam(N, outer, inner, w), N))
+        out.append((fam(N, 'D', 'D', 'g'), N))                    # control: deferred policy
+        out.append((fam(N, 'N', 'N', 'g'), N + 1))                # control: a spare worker
+    out.append((fam(2, 'N', 'N', 'g'), 0))                        # control: no threads, everything inline
+    # workers reached through a task set (the root's set wait helps): kNotDeferred futures two levels deep
+    for N in (1, 2, 4):
+        out.append(([('s', 1, 'q', [('w', 10), ('s', 2, 'N', [('s', 3, 'N', [('w', 1)]), ('g', 3)]), ('g', 2)])] * N + [('j', 1)], N))
+    return out
 
 
 def parse(o):
@@ -227,8 +257,8 @@ def run(ctx):
     ctx.cov['evaluations'] += len(kept)
     ctx.cov['distinct_nontrivial'] += len(distinct)
     ctx.cov['rule'] = ('programs from the grammar body := (work | spawn-into-set{TaskSet, ConcurrentTaskSet light/heavy, with/without ForceQueuingTag} x 1..4 children + wait | '
-                       'future{async, forced async} + wait | parallel_for(1..4, body))*, depth <= 4, heavy (1-3 ms) and lightweight bodies, pools of 0..4 threads, 2-3 '
-                       'repetitions each, watchdog 20 s; plus fixed deep / wide / future-chain shapes on every pool size.  Non-trivial = at least 4 program nodes')
+                       'future{dispenso::async, forced async, Future(f, pool, kNotAsync|async, deferred|kNotDeferred)} + wait()/get() | parallel_for(1..4, body))*, depth <= 4, heavy (1-3 ms) and lightweight bodies, pools of 0..4 threads, 2-3 '
+                       'repetitions each, watchdog 20 s; plus fixed deep / wide / future-chain shapes on every pool size and the probe family: N tasks on an N-thread pool (N = 1..4) each creating an inner future (kNotDeferred / deferred, async / not) and calling get()/wait() while it is still queued, the root blocked in get() as well, with controls.  Non-trivial = at least 4 program nodes')
     ctx.cov['verdict_histogram'] = hist
     ctx.cov['max_ms'] = max([d['ms'] for _, _, _, d, _ in kept[1:] if d] or [0])
     ctx.cov['witness_of_known_finding'] = {'case': wl, 'output': outs[0]}
